@@ -1,7 +1,44 @@
-//! ChaikinOscillator — reference model (TODO).
+//! ChaikinOscillator. Doc: 1 value — `oscillator` value; linked formula (Chaikin Analytics):
+//!   oscillator = MA1(ADI) − MA2(ADI) (short smoothing minus long smoothing of the
+//!   accumulation/distribution index), ADI = Σ CLV · volume over the last `window` candles
+//!   (`window` = 0: over the whole stream).
+//! 1 signal: value goes above zero: full buy; goes below zero: full sell; otherwise none.
 use super::*;
 
-/// returns None until the reference is written
-pub fn make(_cfg: &Cfg, _c0: &RC) -> Option<Box<dyn IndRef>> {
-	None
+#[derive(Clone)]
+pub struct ChaikinOscillator {
+	adi: rm::Adi,
+	ma1: Box<dyn rm::RefVV>,
+	ma2: Box<dyn rm::RefVV>,
+	x: CrossD,
+}
+
+pub fn make(cfg: &Cfg, c0: &RC) -> Option<Box<dyn IndRef>> {
+	let w = cfg.int("window");
+	let adi0 = if w == 0 {
+		// † follows the implementation: a cumulative index has no constant prehistory; it (and both
+		// averages) start from 0 before the first candle
+		Q::exact(0.0)
+	} else {
+		// windowed index of the constant prehistory: window × (CLV · volume) of the first candle
+		(c0.clv() * Q::exact(c0.v)).scale(w as f64)
+	};
+	Some(Box::new(ChaikinOscillator {
+		adi: rm::Adi::new(w, c0),
+		ma1: cfg.ma_ref("ma1", adi0),
+		ma2: cfg.ma_ref("ma2", adi0),
+		// both averages of a constant coincide: previous difference 0
+		x: CrossD::new(0.0),
+	}))
+}
+
+impl IndRef for ChaikinOscillator {
+	fn values(&mut self, c: &RC) -> Vec<Q> {
+		let adi = self.adi.step(c);
+		vec![self.ma1.stepq(adi) - self.ma2.stepq(adi)]
+	}
+	fn signals(&mut self, _c: &RC, own: &[f64]) -> Vec<Sig> {
+		vec![sig_sign(self.x.cross(own[0], 0.0))]
+	}
+	indref!(ChaikinOscillator);
 }
